@@ -91,6 +91,7 @@ def run(ctx) -> None:
     with scratch("c12_") as root:
         par.pmap(ctx, realise_job, [(n, exp, sc, str(root / f"job{n}"), ctx.seed) for n, exp in enumerate(chosen)])
         refusal(ctx, yaw, root, sc, rng, InconsistentPatchesError)
+        refusal_roles(ctx, yaw, root, sc, InconsistentPatchesError)
         generated(ctx, yaw, root, rng)
 
 
@@ -237,6 +238,65 @@ def refusal(ctx, yaw, root, sc, rng, Err):
                 ctx.violation(f"C12|{ep}|{name}|not_refused_{got}", dict(case=name, ref=rp, unk=up))
             if want == "must_accept" and got != "accepted":
                 ctx.violation(f"C12|{ep}|{name}|aligned_catalogs_{got}", dict(case=name, ref=rp, unk=up))
+
+
+def refusal_roles(ctx, yaw, root, sc, Err):
+    """crosscorrelate with all four catalogs: the guard must look at EVERY catalog, whichever role the misaligned one
+    has, and a catalog with legitimately wider patches must not widen the tolerance for the others."""
+    import pandas as pd
+
+    cfg = sc.yaw_config()
+
+    def mk(name, pts, pid, z):
+        df = pd.DataFrame(dict(ra=[p[0] for p in pts], dec=[p[1] for p in pts], w=1.0, z=0.3, pid=pid))
+        kw = dict(ra_name="ra", dec_name="dec", weight_name="w", patch_name="pid", overwrite=True, max_workers=1)
+        if z:
+            kw["redshift_name"] = "z"
+        return yaw.Catalog.from_dataframe(root / name, df, **kw)
+
+    def blob(ra0, n, spread=1.0):
+        return [(ra0 + spread * (k / max(n - 1, 1)), 0.5 * ((k * 7) % 5) / 4.0) for k in range(n)]
+
+    good = lambda n: (blob(20.0, n) + blob(40.0, n), [0] * n + [1] * n)                 # noqa: E731
+    swapped = lambda n: (blob(20.0, n) + blob(40.0, n), [1] * n + [0] * n)              # noqa: E731
+    shifted = lambda n: (blob(21.8, n) + blob(40.0, n), [0] * n + [1] * n)              # noqa: E731 - patch 0 off by 1.8 deg (radius ~0.55)
+    extra = lambda n: (blob(20.0, n) + blob(40.0, n) + blob(60.0, n), [0] * n + [1] * n + [2] * n)   # noqa: E731
+    wide = lambda n: (blob(15.5, n, spread=10.0) + blob(40.0, n), [0] * n + [1] * n)    # noqa: E731 - same centre, patch 0 ten times as wide
+    sizes = dict(reference=12, unknown=3, ref_rand=9, unk_rand=8)       # the reference is the largest catalog in every patch
+    for badname, bad in (("patches_swapped", swapped), ("centre_farther_than_radius", shifted), ("different_patch_ids", extra)):
+        for role in ("unknown", "ref_rand", "unk_rand"):
+            for widen in (None, "unk_rand", "ref_rand"):
+                if widen == role:
+                    continue
+                cats = {}
+                for r, n in sizes.items():
+                    pts, pid = (bad if r == role else wide if r == widen else good)(n)
+                    cats[r] = mk(f"rr_{r}", pts, pid, z=r in ("reference", "ref_rand"))
+                try:
+                    yaw.crosscorrelate(cfg, cats["reference"], cats["unknown"], ref_rand=cats["ref_rand"], unk_rand=cats["unk_rand"], max_workers=1)
+                    got = "accepted"
+                except Err:
+                    got = "refused"
+                except Exception as exc:  # noqa: BLE001
+                    got = f"raises_{type(exc).__name__}"
+                ctx.evaluated(1, ("refusal_roles", badname, role, widen))
+                if got != "refused":
+                    ctx.violation(f"C12|crosscorrelate|{badname},misaligned={role}{',wide_patches_in=' + widen if widen else ''}|not_refused_{got}",
+                                  dict(case=badname, misaligned_catalog=role, catalog_with_wide_patch=widen, sizes=sizes))
+    # aligned catalogs, one of them with a legitimately wider patch: must be accepted
+    for widen in ("unk_rand", "ref_rand", "unknown"):
+        cats = {}
+        for r, n in sizes.items():
+            pts, pid = (wide if r == widen else good)(n)
+            cats[r] = mk(f"rr_{r}", pts, pid, z=r in ("reference", "ref_rand"))
+        try:
+            yaw.crosscorrelate(cfg, cats["reference"], cats["unknown"], ref_rand=cats["ref_rand"], unk_rand=cats["unk_rand"], max_workers=1)
+            got = "accepted"
+        except Exception as exc:  # noqa: BLE001
+            got = f"raises_{type(exc).__name__}"
+        ctx.evaluated(1, ("refusal_roles", "aligned", widen))
+        if got != "accepted":
+            ctx.violation(f"C12|crosscorrelate|aligned,wide_patches_in={widen}|aligned_catalogs_{got}", dict(catalog_with_wide_patch=widen))
 
 
 def generated(ctx, yaw, root, rng):
